@@ -604,7 +604,11 @@ func main() {
 		os.Exit(1)
 	}
 	if len(harnessFailures) > 0 {
-		for _, h := range harnessFailures {
+		for i, h := range harnessFailures {
+			if i >= 2 {
+				fmt.Printf("HARNESS-FAILURE: property=%s ... and %d more shards\n", id, len(harnessFailures)-i)
+				break
+			}
 			fmt.Printf("HARNESS-FAILURE: property=%s %s\n", id, h)
 		}
 		if !keepWork {
